@@ -10,6 +10,7 @@ import TsRsVerif.Model.Case
 import TsRsVerif.Model.Export
 import TsRsVerif.Driver.ProgIO
 import TsRsVerif.Model.TsNorm
+import TsRsVerif.Model.TsWitness
 open Lean TsRs
 
 def gs (j : Json) (k : String) : Str :=
@@ -241,6 +242,11 @@ def handle (ops : CharOps) (j : Json) : Json :=
       Json.mkObj [("ok", Json.bool (Ts.memberb decls 60 t (ProgIO.ofLean v))), ("decls_parsed", Json.num decls.length), ("decls_given", Json.num nDecl)]
     | none, _ => Json.mkObj [("unparsed_type", S (gs j "ty"))]
     | _, .error e => Json.mkObj [("bad_value", Json.str e)]
+  | "witnesses" =>
+    let decls : Decls := (gsl j "decls").filterMap fun d => (TsParse.parseDecl d).map fun (n, ps, body) => (n, ps, TsParse.bindParams ps body)
+    match TsParse.parseType (gs j "ty") with
+    | some t => Json.mkObj [("ok", Json.arr ((Ts.witnesses decls 24 30 t).map fun w => Json.str (ProgIO.render w)).toArray)]
+    | none => Json.mkObj [("unparsed_type", S (gs j "ty"))]
   | "oracle_c07" =>
     -- generic declaration vs concrete declaration of one instantiation
     let others : Decls := (gsl j "decls").filterMap fun d => (TsParse.parseDecl d).map fun (n, ps, body) => (n, ps, TsParse.bindParams ps body)
